@@ -9,35 +9,14 @@
    push/pop_skip_newlines; tokens_lookahead; prev; running past the end), every accept/reject decision,
    every backtracking site (blob probe and unary/variant in prefix, `ret`'s and variant's "try expression
    else none", the prime call's argument loop, the assignment probe, parse_type's "-> <type> or void"),
-   the tree and the final token index.  Not modelled: spans, messages, error recovery (an error is just
-   [Err]; the context returned with an error is not modelled), statement comments. *)
+   the tree and the final token index, every syntax error (the context returned with it and the token index
+   whose span it reports), the error recovery loops of `block` and `module`, and the sites where the Rust code
+   would panic or spin ([Panic]: `remove(0)` on an empty vector, `unreachable!`, `prev()` running into a
+   comment at index 0).  Not modelled: spans themselves, messages, statement comments. *)
 From Coq Require Import String List NArith Bool Arith.
 From Sylt Require Import Syntax.Ast Syntax.Tok Parse.PrecTable.
 Import ListNotations.
 Local Open Scope nat_scope.
-
-(* ------------------------------------------------------------------------------------------- *)
-(* outcomes *)
-
-Inductive res (A : Type) :=
-| Ok (a : A)
-| Err
-| Fuel.
-Arguments Ok {A} a.
-Arguments Err {A}.
-Arguments Fuel {A}.
-
-Definition bind {A B : Type} (m : res A) (k : A -> res B) : res B :=
-  match m with
-  | Ok a => k a
-  | Err => Err
-  | Fuel => Fuel
-  end.
-
-Notation "'let+' x ':=' m 'in' k" := (bind m (fun x => k))
-  (at level 200, x name, m at level 100, k at level 200, right associativity).
-Notation "'let+' ' p ':=' m 'in' k" := (bind m (fun p => k))
-  (at level 200, p strict pattern, m at level 100, k at level 200, right associativity).
 
 (* ------------------------------------------------------------------------------------------- *)
 (* Context: a zipper over the token list.  [pre] = tokens before `curr`, most recent first;
@@ -80,27 +59,28 @@ Definition skip (n : nat) (c : ctx) : ctx :=
       end
   end.
 
-(* Context::prev: one token back, then further back while on a comment.  (With a comment at index 0 and
-   nothing before it the Rust loop would not terminate; unreachable from the parser, see `loop`.) *)
-Fixpoint unwind (pre : list tok) (post : list tok) : list tok * list tok :=
+(* Context::prev: one token back, then further back while on a comment.  With a comment at index 0 and
+   nothing before it the Rust loop does not terminate: [None]. *)
+Fixpoint unwind (pre : list tok) (post : list tok) : option (list tok * list tok) :=
   match post with
   | TComment :: _ =>
       match pre with
       | t :: pre' => unwind pre' (t :: post)
-      | [] => (pre, post)
+      | [] => None
       end
-  | _ => (pre, post)
+  | _ => Some (pre, post)
   end.
 
-Definition prev (c : ctx) : ctx :=
+Definition prev (c : ctx) : option ctx :=
   match over c with
-  | S o => mkctx (pre c) (post c) o (nl c)
+  | S o => Some (mkctx (pre c) (post c) o (nl c))
   | 0 =>
       match pre c with
-      | [] => c
+      | [] => match post c with TComment :: _ => None | _ => Some c end
       | t :: pre' =>
           match unwind pre' (t :: post c) with
-          | (p1, p2) => mkctx p1 p2 0 (nl c)
+          | Some (p1, p2) => Some (mkctx p1 p2 0 (nl c))
+          | None => None
           end
       end
   end.
@@ -110,11 +90,43 @@ Definition set_nl (b : bool) (c : ctx) : ctx := mkctx (pre c) (post c) (over c) 
 Definition push_nl (b : bool) (c : ctx) : ctx * bool := (skip 0 (set_nl b c), nl c).
 Definition pop_nl (b : bool) (c : ctx) : ctx := set_nl b c.
 
+(* ------------------------------------------------------------------------------------------- *)
+(* outcomes.  [Err c es]: a syntax error; [c] is the context handed back with it (where recovery resumes),
+   [es] the token indices whose spans the reported errors carry, in order.  [Fuel]: the model ran out of
+   fuel.  [Panic]: the Rust code would panic or loop forever here. *)
+
+Inductive res (A : Type) :=
+| Ok (a : A)
+| Err (c : ctx) (es : list nat)
+| Fuel
+| Panic.
+Arguments Ok {A} a.
+Arguments Err {A} c es.
+Arguments Fuel {A}.
+Arguments Panic {A}.
+
+Definition bind {A B : Type} (m : res A) (k : A -> res B) : res B :=
+  match m with
+  | Ok a => k a
+  | Err c es => Err c es
+  | Fuel => Fuel
+  | Panic => Panic
+  end.
+
+Notation "'let+' x ':=' m 'in' k" := (bind m (fun x => k))
+  (at level 200, x name, m at level 100, k at level 200, right associativity).
+Notation "'let+' ' p ':=' m 'in' k" := (bind m (fun p => k))
+  (at level 200, p strict pattern, m at level 100, k at level 200, right associativity).
+
+(* raise_syntax_error!(ctx, ..): the error carries the span of the current token of [c]; the context handed
+   back is one token further *)
+Definition raise {A : Type} (c : ctx) : res A := Err (skip 1 c) [consumed c].
+
 Definition is_k (k : kw) (c : ctx) : bool := tok_is k (token c).
 
 Definition skip_if (k : kw) (c : ctx) : ctx := if is_k k c then skip 1 c else c.
 
-Definition expect (k : kw) (c : ctx) : res ctx := if is_k k c then Ok (skip 1 c) else Err.
+Definition expect (k : kw) (c : ctx) : res ctx := if is_k k c then Ok (skip 1 c) else raise c.
 
 Definition look2 (c : ctx) : tok * tok := (token c, token (skip 1 c)).
 Definition look3 (c : ctx) : tok * tok * tok := (token c, token (skip 1 c), token (skip 1 (skip 1 c))).
@@ -129,6 +141,19 @@ Fixpoint skip_while_nl (f : nat) (c : ctx) : ctx :=
   end.
 
 Definition skip_nls (c : ctx) : ctx := skip_while_nl (local_fuel c) c.
+
+(* skip_until!(ctx, k): forward to the next token k or the end *)
+Fixpoint skip_until_f (f : nat) (k : kw) (c : ctx) : ctx :=
+  match f with
+  | 0 => c
+  | S f' =>
+      match token c with
+      | TEOF => c
+      | _ => if is_k k c then c else skip_until_f f' k (skip 1 c)
+      end
+  end.
+
+Definition skip_until (k : kw) (c : ctx) : ctx := skip_until_f (local_fuel c) k c.
 
 (* assignable_call, after an argument: the list continues over line breaks next to a comma; blank and
    comment-only lines in between are insignificant *)
@@ -161,7 +186,7 @@ Definition type_assignable (c : ctx) : res (tyass * ctx) :=
   | TIdent n =>
       if is_capitalized n then Ok (TARead n, skip 1 c)
       else let+ c1 := expect KDot (skip 1 c) in type_assignable_inner (local_fuel c) c1 (TARead n)
-  | _ => Err
+  | _ => raise c
   end.
 
 Fixpoint constraint_args (f : nat) (c : ctx) (acc : list name) : res (list name * ctx) :=
@@ -171,14 +196,14 @@ Fixpoint constraint_args (f : nat) (c : ctx) (acc : list name) : res (list name 
       match token c with
       | TIdent v => constraint_args f' (skip 1 c) (acc ++ [v])
       | TK KPlus | TK KComma | TK KGreater => Ok (acc, c)
-      | _ => Err
+      | _ => raise c
       end
   end.
 
 Definition constraint (f : nat) (c : ctx) : res (tcons * ctx) :=
   match token c with
   | TIdent n => let+ '(args, c1) := constraint_args f (skip 1 c) [] in Ok ((n, args), c1)
-  | _ => Err
+  | _ => raise c
   end.
 
 (* BTreeMap::insert on a key-sorted association list *)
@@ -206,7 +231,7 @@ Fixpoint constraints_inner (f : nat) (c : ctx) (ident : name) (lst : list tcons)
       | TK KPlus => constraints_inner f' c2 ident lst' m
       | TK KComma => Ok (map_insert ident lst' m, true, c2)
       | TK KGreater => Ok (map_insert ident lst' m, false, c2)
-      | _ => Err      (* `unreachable!` in the Rust code; constraint_args only stops on + , > *)
+      | _ => Panic    (* `unreachable!` in the Rust code; constraint_args only stops on + , > *)
       end
   end.
 
@@ -218,7 +243,7 @@ Fixpoint constraints_outer (f : nat) (c : ctx) (m : consmap) : res (consmap * ct
       | (TIdent ident, TK KColon) =>
           let+ '(m', again, c1) := constraints_inner (local_fuel c) (skip 2 c) ident [] m in
           if again then constraints_outer f' c1 m' else Ok (m', c1)
-      | _ => Err
+      | _ => raise c
       end
   end.
 
@@ -242,7 +267,7 @@ Definition path (c : ctx) : res (name * ctx) :=
   match token c with
   | TK KSlash => Ok (path_loop (local_fuel c) (skip 1 c) [slash])
   | TIdent _ => Ok (path_loop (local_fuel c) c [])
-  | _ => Err
+  | _ => raise c
   end.
 
 Fixpoint trim_start_slash (s : name) : name :=
@@ -300,14 +325,14 @@ Fixpoint from_imports (f : nat) (c : ctx) (acc : list (name * option name))
                let c2 := skip 1 c1 in
                match token c2 with
                | TIdent a => Ok (Some a, skip 1 c2)
-               | _ => Err
+               | _ => raise c2
                end
              else Ok (None, c1)) in
           match token c2 with
           | TK KComma | TK KRightParen | TK KNewline => from_imports f' (skip_if KComma c2) (acc ++ [(n, alias)])
-          | _ => Err
+          | _ => raise c2
           end
-      | _ => Err
+      | _ => raise c
       end
   end.
 
@@ -329,10 +354,12 @@ Inductive req :=
 | QSepTypes (old : bool) (c : ctx)                            (* parse_sep_end_by(…, parse_type) after `(` *)
 | QFnTyParams (acc : list ty) (c : ctx)                       (* parse_type: fn parameter loop *)
 | QTyTuple (is_tuple : bool) (acc : list ty) (c : ctx)        (* parse_type: tuple loop *)
-| QStmts (acc : list stmt) (c : ctx)                          (* block: loop *)
+| QStmts (acc : list stmt) (errs : list nat) (c : ctx)        (* block: loop, with the errors collected so far *)
 | QStmt (c : ctx)                                             (* statement *)
-| QEnumItems (acc : list (name * ty)) (c : ctx)               (* enum: parse_sep_end_by(sep, end, item) *)
-| QBlobFields (acc : list (name * ty)) (c : ctx).             (* blob declaration: field loop *)
+| QEnumItems (acc : list (name * ty * nat)) (c : ctx)         (* enum: parse_sep_end_by(sep, end, item); with the
+                                                                 token index of each variant name *)
+| QBlobFields (acc : list (name * ty)) (c : ctx)              (* blob declaration: field loop *)
+| QModule (acc : list stmt) (errs : list nat) (last : nat) (c : ctx).   (* module: loop over outer statements *)
 
 Inductive out :=
 | RE (e : expr) (c : ctx)
@@ -349,23 +376,26 @@ Inductive out :=
 | RTyTup (is_tuple : bool) (ts : list ty) (c : ctx)
 | RSs (ss : list stmt) (c : ctx)
 | RS (s : stmt) (c : ctx)
-| RNTs (l : list (name * ty)) (c : ctx).
+| RNTs (l : list (name * ty)) (c : ctx)
+| REnum (l : list (name * ty * nat)) (c : ctx).
 
 (* Programs with explicit recursive calls: [Call q kOk kErr] asks the recursive parser for [q] and goes
-   on with [kOk] on success and [kErr] on a syntax error; running out of fuel in the callee always ends
-   the caller with [Fuel] ([run]).  Backtracking sites are exactly the calls whose [kErr] is not [Ret Err]. *)
+   on with [kOk] on success and with [kErr] (given the error's context and positions) on a syntax error;
+   running out of fuel or panicking in the callee ends the caller the same way ([run]).  Backtracking sites
+   are exactly the handlers that do not re-raise. *)
 Inductive prog (A : Type) :=
 | Ret (r : res A)
-| Call (q : req) (kOk : out -> prog A) (kErr : prog A).
+| Call (q : req) (kOk : out -> prog A) (kErr : ctx -> list nat -> prog A).
 Arguments Ret {A} r.
 Arguments Call {A} q kOk kErr.
 
-Fixpoint ptry {A B : Type} (m : prog A) (k : A -> prog B) (e : prog B) : prog B :=
+Fixpoint ptry {A B : Type} (m : prog A) (k : A -> prog B) (e : ctx -> list nat -> prog B) : prog B :=
   match m with
   | Ret (Ok a) => k a
-  | Ret Err => e
+  | Ret (Err c es) => e c es
   | Ret Fuel => Ret Fuel
-  | Call q kOk kErr => Call q (fun o => ptry (kOk o) k e) (ptry kErr k e)
+  | Ret Panic => Ret Panic
+  | Call q kOk kErr => Call q (fun o => ptry (kOk o) k e) (fun c es => ptry (kErr c es) k e)
   end.
 
 Fixpoint run {A : Type} (rec : req -> res out) (m : prog A) : res A :=
@@ -374,57 +404,64 @@ Fixpoint run {A : Type} (rec : req -> res out) (m : prog A) : res A :=
   | Call q kOk kErr =>
       match rec q with
       | Ok o => run rec (kOk o)
-      | Err => run rec kErr
+      | Err c es => run rec (kErr c es)
       | Fuel => Fuel
+      | Panic => Panic
       end
   end.
 
 Definition ok {A : Type} (a : A) : prog A := Ret (Ok a).
-Definition err {A : Type} : prog A := Ret Err.
+(* `?`: hand the error on unchanged *)
+Definition reraise {A : Type} (c : ctx) (es : list nat) : prog A := Ret (Err c es).
+Definition praise {A : Type} (c : ctx) : prog A := Ret (raise c).
+Definition panic {A : Type} : prog A := Ret Panic.
 
-Notation "'let*' x ':=' m 'in' k" := (ptry m (fun x => k) err)
+Notation "'let*' x ':=' m 'in' k" := (ptry m (fun x => k) reraise)
   (at level 200, x name, m at level 100, k at level 200, right associativity).
-Notation "'let*' ' p ':=' m 'in' k" := (ptry m (fun p => k) err)
+Notation "'let*' ' p ':=' m 'in' k" := (ptry m (fun p => k) reraise)
   (at level 200, p strict pattern, m at level 100, k at level 200, right associativity).
 
-Definition call (q : req) : prog out := Call q ok err.
+Definition call (q : req) : prog out := Call q ok reraise.
 
-Definition get_E (o : out) : prog (expr * ctx) := match o with RE e c => ok (e, c) | _ => err end.
-Definition get_A (o : out) : prog (assignable * ctx) := match o with RA a c => ok (a, c) | _ => err end.
-Definition get_Es (o : out) : prog (list expr * ctx) := match o with REs es c => ok (es, c) | _ => err end.
+Definition get_E (o : out) : prog (expr * ctx) := match o with RE e c => ok (e, c) | _ => panic end.
+Definition get_A (o : out) : prog (assignable * ctx) := match o with RA a c => ok (a, c) | _ => panic end.
+Definition get_Es (o : out) : prog (list expr * ctx) := match o with REs es c => ok (es, c) | _ => panic end.
 Definition get_Tup (o : out) : prog (bool * list expr * ctx) :=
-  match o with RTup b es c => ok (b, es, c) | _ => err end.
-Definition get_Fs (o : out) : prog (list (name * expr) * ctx) := match o with RFs fs c => ok (fs, c) | _ => err end.
-Definition get_Ifs (o : out) : prog (list ifbranch * ctx) := match o with RIfs bs c => ok (bs, c) | _ => err end.
+  match o with RTup b es c => ok (b, es, c) | _ => panic end.
+Definition get_Fs (o : out) : prog (list (name * expr) * ctx) := match o with RFs fs c => ok (fs, c) | _ => panic end.
+Definition get_Ifs (o : out) : prog (list ifbranch * ctx) := match o with RIfs bs c => ok (bs, c) | _ => panic end.
 Definition get_Cases (o : out) : prog (list casebranch * ctx) :=
-  match o with RCases bs c => ok (bs, c) | _ => err end.
+  match o with RCases bs c => ok (bs, c) | _ => panic end.
 Definition get_Params (o : out) : prog (list (name * ty) * ty * ctx) :=
-  match o with RParams ps r c => ok (ps, r, c) | _ => err end.
-Definition get_T (o : out) : prog (ty * ctx) := match o with RT t c => ok (t, c) | _ => err end.
-Definition get_Ts (o : out) : prog (list ty * ctx) := match o with RTs ts c => ok (ts, c) | _ => err end.
+  match o with RParams ps r c => ok (ps, r, c) | _ => panic end.
+Definition get_T (o : out) : prog (ty * ctx) := match o with RT t c => ok (t, c) | _ => panic end.
+Definition get_Ts (o : out) : prog (list ty * ctx) := match o with RTs ts c => ok (ts, c) | _ => panic end.
 Definition get_FnTy (o : out) : prog (list ty * ty * ctx) :=
-  match o with RFnTy ps r c => ok (ps, r, c) | _ => err end.
+  match o with RFnTy ps r c => ok (ps, r, c) | _ => panic end.
 Definition get_TyTup (o : out) : prog (bool * list ty * ctx) :=
-  match o with RTyTup b ts c => ok (b, ts, c) | _ => err end.
-Definition get_Ss (o : out) : prog (list stmt * ctx) := match o with RSs ss c => ok (ss, c) | _ => err end.
-Definition get_S (o : out) : prog (stmt * ctx) := match o with RS s c => ok (s, c) | _ => err end.
-Definition get_NTs (o : out) : prog (list (name * ty) * ctx) := match o with RNTs l c => ok (l, c) | _ => err end.
+  match o with RTyTup b ts c => ok (b, ts, c) | _ => panic end.
+Definition get_Ss (o : out) : prog (list stmt * ctx) := match o with RSs ss c => ok (ss, c) | _ => panic end.
+Definition get_S (o : out) : prog (stmt * ctx) := match o with RS s c => ok (s, c) | _ => panic end.
+Definition get_NTs (o : out) : prog (list (name * ty) * ctx) := match o with RNTs l c => ok (l, c) | _ => panic end.
+Definition get_Enum (o : out) : prog (list (name * ty * nat) * ctx) :=
+  match o with REnum l c => ok (l, c) | _ => panic end.
 
-Definition call_E q := Call q get_E err.
-Definition call_A q := Call q get_A err.
-Definition call_Es q := Call q get_Es err.
-Definition call_Tup q := Call q get_Tup err.
-Definition call_Fs q := Call q get_Fs err.
-Definition call_Ifs q := Call q get_Ifs err.
-Definition call_Cases q := Call q get_Cases err.
-Definition call_Params q := Call q get_Params err.
-Definition call_T q := Call q get_T err.
-Definition call_Ts q := Call q get_Ts err.
-Definition call_FnTy q := Call q get_FnTy err.
-Definition call_TyTup q := Call q get_TyTup err.
-Definition call_Ss q := Call q get_Ss err.
-Definition call_S q := Call q get_S err.
-Definition call_NTs q := Call q get_NTs err.
+Definition call_E q := Call q get_E reraise.
+Definition call_A q := Call q get_A reraise.
+Definition call_Es q := Call q get_Es reraise.
+Definition call_Tup q := Call q get_Tup reraise.
+Definition call_Fs q := Call q get_Fs reraise.
+Definition call_Ifs q := Call q get_Ifs reraise.
+Definition call_Cases q := Call q get_Cases reraise.
+Definition call_Params q := Call q get_Params reraise.
+Definition call_T q := Call q get_T reraise.
+Definition call_Ts q := Call q get_Ts reraise.
+Definition call_FnTy q := Call q get_FnTy reraise.
+Definition call_TyTup q := Call q get_TyTup reraise.
+Definition call_Ss q := Call q get_Ss reraise.
+Definition call_S q := Call q get_S reraise.
+Definition call_NTs q := Call q get_NTs reraise.
+Definition call_Enum q := Call q get_Enum reraise.
 
 (* arrow_call's prepend_expresion *)
 Fixpoint prepend (lhs rhs : expr) : option expr :=
@@ -470,7 +507,7 @@ Fixpoint sep_vars (f : nat) (old : bool) (c : ctx) : res (list name * ctx) :=
               let+ c3 := expect KComma c2 in
               let+ '(vs, c4) := sep_vars f' old c3 in
               Ok (v :: vs, c4)
-        | _ => Err
+        | _ => raise c1
         end
   end.
 
@@ -489,7 +526,7 @@ Definition parse_type (c : ctx) : prog (ty * ctx) := call_T ((QType c)).
 Definition statement (c : ctx) : prog (stmt * ctx) := call_S ((QStmt c)).
 
 (* block(): optional `do`, statements until else/elif/end/EOF, optional `end` *)
-Definition block (c : ctx) : prog (list stmt * ctx) := call_Ss ((QStmts [] (skip_if KDo c))).
+Definition block (c : ctx) : prog (list stmt * ctx) := call_Ss ((QStmts [] [] (skip_if KDo c))).
 
 (* parse_beg_end_comma_sep!(ctx, LeftParen, RightParen, parse_type) *)
 Definition paren_types (c : ctx) : prog (list ty * ctx) :=
@@ -531,14 +568,14 @@ Definition step_type (c : ctx) : prog out :=
       if is_tuple' then ok (RT (TyTuple ts) c3)
       else match ts with
            | t :: _ => ok (RT (TyGroup t) c3)
-           | [] => err      (* `types.remove(0)` on an empty vector: unreachable, see the loop *)
+           | [] => panic    (* `types.remove(0)` on an empty vector *)
            end
   | TK KLeftBracket =>
       let '(c0, old) := push_nl true (skip 1 c) in
       let* '(t, c1) := parse_type c0 in
       let* c2 := pexpect KRightBracket (pop_nl old c1) in
       ok (RT (TyList t) c2)
-  | _ => err
+  | _ => praise c
   end.
 
 Definition step_sep_types (old : bool) (c : ctx) : prog out :=
@@ -555,12 +592,12 @@ Definition step_fnty_params (acc : list ty) (c : ctx) : prog out :=
   match token c with
   | TK KArrow =>
       let c1 := skip 1 c in
-      ptry (parse_type c1) (fun '(t, c2) => ok (RFnTy acc t c2)) (ok (RFnTy acc (TyResolved RVoid) c1))
-  | TEOF => err
+      ptry (parse_type c1) (fun '(t, c2) => ok (RFnTy acc t c2)) (fun _ _ => ok (RFnTy acc (TyResolved RVoid) c1))
+  | TEOF => praise c
   | _ =>
       let* '(t, c1) := parse_type c in
       if is_k KComma c1 || is_k KArrow c1 then call (QFnTyParams (acc ++ [t]) (skip_if KComma c1))
-      else err
+      else praise c1
   end.
 
 Definition step_ty_tuple (is_tuple : bool) (acc : list ty) (c0 : ctx) : prog out :=
@@ -577,7 +614,7 @@ Definition step_ty_tuple (is_tuple : bool) (acc : list ty) (c0 : ctx) : prog out
 Definition assignable_p (c : ctx) : prog (assignable * ctx) :=
   match token c with
   | TIdent n => call_A ((QSub (ARead n) (skip 1 c)))
-  | _ => err
+  | _ => praise c
   end.
 
 Definition assignable_call (c : ctx) (callee : assignable) : prog out :=
@@ -596,7 +633,7 @@ Definition step_args (primer : bool) (acc : list expr) (c : ctx) : prog out :=
       ptry (expression c)
            (fun '(e, c1) =>
               call (QArgs primer (acc ++ [e]) (after_arg c1)))
-           (if primer then ok (REs acc c) else err)
+           (fun c' es => if primer then ok (REs acc c) else reraise c' es)
   end.
 
 Definition assignable_index (c : ctx) (indexed : assignable) : prog out :=
@@ -606,7 +643,7 @@ Definition assignable_index (c : ctx) (indexed : assignable) : prog out :=
   | EInt _ =>
       let* c3 := pexpect KRightBracket (pop_nl old c2) in
       call (QSub (AIndex indexed e) c3)
-  | _ => err
+  | _ => praise c1
   end.
 
 Definition assignable_variant (c : ctx) (accessed : assignable) : prog out :=
@@ -615,19 +652,19 @@ Definition assignable_variant (c : ctx) (accessed : assignable) : prog out :=
          | AAccess _ n => Some n
          | _ => None
          end) with
-  | None => err
+  | None => praise c
   | Some enum_name =>
-      if negb (is_capitalized enum_name) then err
+      if negb (is_capitalized enum_name) then praise c
       else
         let* c1 := pexpect KDot c in
         match token c1 with
         | TIdent v =>
-            if negb (is_capitalized v) then err
+            let c2 := skip 1 c1 in
+            if negb (is_capitalized v) then praise c2
             else
-              let c2 := skip 1 c1 in
-              let* '(value, c3) := ptry (expression c2) ok (ok (ENil, c2)) in
+              let* '(value, c3) := ptry (expression c2) ok (fun _ _ => ok (ENil, c2)) in
               ok (RA (AVariant accessed v value) c3)
-        | _ => err
+        | _ => praise c1
         end
   end.
 
@@ -635,14 +672,14 @@ Definition assignable_dot (c : ctx) (accessed : assignable) : prog out :=
   let c1 := skip 1 c in
   match token c1 with
   | TIdent n => call (QSub (AAccess accessed n) (skip 1 c1))
-  | _ => err
+  | _ => praise c
   end.
 
 Definition step_sub (a : assignable) (c : ctx) : prog out :=
   match token c with
   | TK KPrime | TK KLeftParen => assignable_call c a
   | TK KLeftBracket => assignable_index c a
-  | TK KDot => ptry (assignable_variant c a) ok (assignable_dot c a)
+  | TK KDot => ptry (assignable_variant c a) ok (fun _ _ => assignable_dot c a)
   | _ => ok (RA a c)
   end.
 
@@ -654,7 +691,7 @@ Definition value (c : ctx) : prog out :=
   | TBool b => ok (RE (EBool b) c1)
   | TK KNil => ok (RE ENil c1)
   | TStr s => ok (RE (EStr s) c1)
-  | _ => err
+  | _ => praise c1
   end.
 
 Definition unary (c : ctx) : prog out :=
@@ -663,7 +700,7 @@ Definition unary (c : ctx) : prog out :=
   let* '(e, c2) := call_E ((QPrec (pt_unary_level T) c1)) in
   match pt_unary T op with
   | Some u => ok (RE (EUn u e) c2)
-  | None => err
+  | None => praise c2
   end.
 
 Definition grouping_or_tuple (c : ctx) : prog out :=
@@ -676,7 +713,7 @@ Definition grouping_or_tuple (c : ctx) : prog out :=
   if is_tuple' then ok (RE (ETuple es) c5)
   else match es with
        | e :: _ => ok (RE (EParen e) c5)
-       | [] => err       (* `exprs.remove(0)` on an empty vector: unreachable *)
+       | [] => panic     (* `exprs.remove(0)` on an empty vector *)
        end.
 
 Definition step_tuple (is_tuple : bool) (acc : list expr) (c0 : ctx) : prog out :=
@@ -688,7 +725,7 @@ Definition step_tuple (is_tuple : bool) (acc : list expr) (c0 : ctx) : prog out 
       let is_tuple' := is_tuple || is_k KComma c1 in
       if is_tuple' then
         if is_k KComma c1 || is_k KRightParen c1 then call (QTuple true (acc ++ [e]) (skip_if KComma c1))
-        else err
+        else praise c1
       else ok (RTup false (acc ++ [e]) c1)
   end.
 
@@ -706,7 +743,7 @@ Definition step_list (acc : list expr) (c : ctx) : prog out :=
   | _ =>
       let* '(e, c1) := expression c in
       if is_k KComma c1 || is_k KRightBracket c1 then call (QList (acc ++ [e]) (skip_if KComma c1))
-      else err
+      else praise c1
   end.
 
 Definition blob (c : ctx) : prog out :=
@@ -716,7 +753,7 @@ Definition blob (c : ctx) : prog out :=
   let* '(fs, c4) := call_Fs ((QFields [] c3)) in
   let c5 := pop_nl old c4 in
   let* c6 := pexpect KRightBrace c5 in
-  if is_k KElse c6 then err else ok (RE (EBlob b fs) c6).
+  if is_k KElse c6 then praise c6 else ok (RE (EBlob b fs) c6).
 
 Definition step_fields (acc : list (name * expr)) (c : ctx) : prog out :=
   match token c with
@@ -725,8 +762,8 @@ Definition step_fields (acc : list (name * expr)) (c : ctx) : prog out :=
       let* c1 := pexpect KColon (skip 1 c) in
       let* '(e, c2) := expression c1 in
       if is_k KComma c2 || is_k KRightBrace c2 then call (QFields (acc ++ [(n, e)]) (skip_if KComma c2))
-      else err
-  | _ => err
+      else praise c2
+  | _ => praise c
   end.
 
 Definition if_expression (c : ctx) : prog out :=
@@ -774,14 +811,14 @@ Definition step_cases (acc : list casebranch) (c : ctx) : prog out :=
         let c1 := skip 1 c in
         let* '(var, c2) :=
           match token c1 with
-          | TIdent v => if negb (is_capitalized v) then ok (Some v, skip 1 c1) else err
+          | TIdent v => if negb (is_capitalized v) then ok (Some v, skip 1 c1) else praise c1
           | _ => ok (None, c1)
           end in
         let* c3 := pexpect KArrow c2 in
         let* '(body, c4) := block c3 in
         call (QCases (acc ++ [CaseBranch pat var body]) c4)
-      else err
-  | _ => err
+      else praise c
+  | _ => praise c
   end.
 
 Definition function (c : ctx) : prog out :=
@@ -794,18 +831,18 @@ Definition function (c : ctx) : prog out :=
 Definition step_params (acc : list (name * ty)) (c : ctx) : prog out :=
   match token c with
   | TIdent n =>
-      if name_eqb n self_name then err
+      if name_eqb n self_name then praise c
       else
         let c1 := skip 1 c in
         let* '(t, c2) :=
           (if is_k KColon c1 then parse_type (skip 1 c1) else ok (TyResolved RUnknown, c1)) in
         if is_k KComma c2 || is_k KDo c2 || is_k KArrow c2 then call (QParams (acc ++ [(n, t)]) (skip_if KComma c2))
-        else err
+        else praise c2
   | TK KArrow =>
       let c1 := skip 1 c in
-      ptry (parse_type c1) (fun '(t, c2) => ok (RParams acc t c2)) (ok (RParams acc (TyResolved RUnknown) c1))
+      ptry (parse_type c1) (fun '(t, c2) => ok (RParams acc t c2)) (fun _ _ => ok (RParams acc (TyResolved RUnknown) c1))
   | TK KLeftBrace | TK KDo => ok (RParams acc (TyResolved RVoid) c)
-  | _ => err
+  | _ => praise c
   end.
 
 Definition prefix (c : ctx) : prog out :=
@@ -820,15 +857,16 @@ Definition prefix (c : ctx) : prog out :=
       (* probe: a type_assignable followed by `{` is a blob instantiation *)
       match type_assignable c with
       | Fuel => Ret Fuel
+      | Panic => Ret Panic
       | probe =>
           let is_blob := match probe with Ok (_, c1) => is_k KLeftBrace c1 | _ => false end in
-          if is_blob then blob c
+          if is_blob then ptry (blob c) ok (fun c' es => Ret (Err (skip_until KRightBrace c') es))
           else let* '(a, c1) := assignable_p c in ok (RE (EGet a) c1)
       end
   | t =>
       match pt_unary T t with
       | Some _ => unary c
-      | None => err
+      | None => praise c
       end
   end.
 
@@ -837,7 +875,7 @@ Definition arrow_call (c : ctx) (lhs : expr) : prog out :=
   let* '(rhs, c2) := expression c1 in
   match prepend lhs rhs with
   | Some e => ok (RE e c2)
-  | None => err
+  | None => praise c2
   end.
 
 Definition infix (c : ctx) (lhs : expr) : prog out :=
@@ -851,70 +889,83 @@ Definition infix (c : ctx) (lhs : expr) : prog out :=
         let c1 := skip 1 c in
         let* '(rhs, c2) := call_E ((QPrec (pt_next T (pt_prec T t)) c1)) in
         ok (RE (EBin o lhs rhs) c2)
-    | None => err
+    | None =>
+        (* raise_syntax_error!(ctx.prev(), ..) after the operator has been eaten *)
+        match prev (skip 1 c) with
+        | Some cp => praise cp
+        | None => panic
+        end
     end.
 
 Definition step_prec (p : nat) (c : ctx) : prog out :=
-  let* '(e, c1) := ptry (prefix c) get_E err in
+  let* '(e, c1) := ptry (prefix c) get_E reraise in
   call (QLoop p e c1).
 
 Definition step_loop (p : nat) (lhs : expr) (c : ctx) : prog out :=
   if (p <=? pt_prec T (token c)) && pt_valid T (token c) then
-    let* '(e, c1) := ptry (infix c lhs) get_E err in
+    let* '(e, c1) := ptry (infix c lhs) get_E reraise in
     call (QLoop p e c1)
   else ok (RE lhs c).
 
 (* ---- statements ---- *)
 
-Definition step_stmts (acc : list stmt) (c : ctx) : prog out :=
+(* block(): the loop.  A statement that fails is recorded and the loop resumes after the next newline
+   (with newlines significant again); the block fails at the end if anything was recorded. *)
+Definition step_stmts (acc : list stmt) (errs : list nat) (c : ctx) : prog out :=
   match token c with
-  | TK KElse | TK KElif | TK KEnd | TEOF => ok (RSs acc (skip_if KEnd c))
+  | TK KElse | TK KElif | TK KEnd | TEOF =>
+      match errs with
+      | [] => ok (RSs acc (skip_if KEnd c))
+      | _ => Ret (Err c errs)
+      end
   | _ =>
-      let* '(s, c1) := statement c in
-      call (QStmts (acc ++ [s]) c1)
+      ptry (statement c)
+           (fun '(s, c1) => call (QStmts (acc ++ [s]) errs c1))
+           (fun c' es =>
+              call (QStmts acc (errs ++ es) (skip_if KNewline (skip_until KNewline (pop_nl false c')))))
   end.
 
 Definition nil_ty : ty := TyResolved RNil.
 
-(* enum: one pass of parse_sep_end_by(ctx, sep, end, item) *)
-Definition enum_item (c0 : ctx) : prog (name * ty * ctx) :=
+(* enum: one pass of parse_sep_end_by(ctx, sep, end, item); the nat is the token index of the variant name *)
+Definition enum_item (c0 : ctx) : prog (name * ty * nat * ctx) :=
   let c := skip_nls c0 in
   match token c with
   | TIdent v =>
       let c1 := skip 1 c in
-      if negb (is_capitalized v) then err
+      if negb (is_capitalized v) then praise c1
       else
         let* '(t, c2) :=
           (if is_k KEnd c1 || is_k KComma c1 || is_k KNewline c1 then ok (nil_ty, c1)
            else
              let* '(t, c2) := parse_type (skip_if KColon c1) in
-             if is_k KComma c2 || is_k KEnd c2 || is_k KNewline c2 then ok (t, c2) else err) in
-        ok (v, t, skip_if KComma c2)
-  | _ => err
+             if is_k KComma c2 || is_k KEnd c2 || is_k KNewline c2 then ok (t, c2) else praise c2) in
+        ok (v, t, consumed c, skip_if KComma c2)
+  | _ => praise c
   end.
 
-Definition step_enum_items (acc : list (name * ty)) (c : ctx) : prog out :=
+Definition step_enum_items (acc : list (name * ty * nat)) (c : ctx) : prog out :=
   let ce := skip_nls c in
-  if is_k KEnd ce then ok (RNTs acc (skip 1 ce))
+  if is_k KEnd ce then ok (REnum acc (skip 1 ce))
   else
-    let* '(v, t, c1) := enum_item c in
+    let* '(v, t, pos, c1) := enum_item c in
     let ce1 := skip_nls c1 in
-    if is_k KEnd ce1 then ok (RNTs (acc ++ [(v, t)]) (skip 1 ce1))
-    else call (QEnumItems (acc ++ [(v, t)]) (skip_if KComma (skip_nls c1))).
+    if is_k KEnd ce1 then ok (REnum (acc ++ [(v, t, pos)]) (skip 1 ce1))
+    else call (QEnumItems (acc ++ [(v, t, pos)]) (skip_if KComma (skip_nls c1))).
 
 Definition step_blob_fields (acc : list (name * ty)) (c : ctx) : prog out :=
   match token c with
   | TK KNewline => call (QBlobFields acc (skip 1 c))
   | TK KRightBrace => ok (RNTs acc c)
   | TIdent f =>
-      if name_eqb f self_name then err
-      else if has_key f acc then err
+      if name_eqb f self_name then praise c
+      else if has_key f acc then praise c
       else
         let* c1 := pexpect KColon (skip 1 c) in
         let* '(t, c2) := parse_type c1 in
         if is_k KComma c2 || is_k KRightBrace c2 then call (QBlobFields (acc ++ [(f, t)]) (skip_if KComma c2))
-        else err
-  | _ => err
+        else praise c2
+  | _ => praise c
   end.
 
 Definition assign_op (t : tok) : option assignop :=
@@ -927,14 +978,22 @@ Definition assign_op (t : tok) : option assignop :=
   | _ => None
   end.
 
+(* the span of an implicit `use` name is taken with ctx.prev() (twice for a path that ends in '/') *)
+Definition use_prev_ok (p : name) (c : ctx) : bool :=
+  match prev c with
+  | None => false
+  | Some c1 => if ends_with_slash p then match prev c1 with Some _ => true | None => false end else true
+  end.
+
 Definition stmt_use (c : ctx) : prog (stmt * ctx) :=
   let* '(p, file, c1) := Ret (use_path (skip 1 c)) in
   match look2 c1 with
   | (TK KAs, TIdent alias) => ok (SUse p (NAlias alias) file, skip 2 c1)
-  | (TK KAs, _) => err
+  | (TK KAs, _) => praise (skip 1 c1)
   | _ =>
-      if name_eqb p [slash] then err
-      else ok (SUse p (NImplicit (last_component (trim_slashes p) [])) file, c1)
+      if name_eqb p [slash] then praise c1
+      else if use_prev_ok p c1 then ok (SUse p (NImplicit (last_component (trim_slashes p) [])) file, c1)
+      else panic
   end.
 
 Definition stmt_from (c : ctx) : prog (stmt * ctx) :=
@@ -944,25 +1003,34 @@ Definition stmt_from (c : ctx) : prog (stmt * ctx) :=
   let '(c3, old) := if paren then push_nl true (skip 1 c2) else push_nl false c2 in
   let* '(imports, c4) := Ret (from_imports (local_fuel c3) c3 []) in
   match imports with
-  | [] => err
+  | [] => praise c4
   | _ =>
       let c5 := pop_nl old c4 in
       let* c6 := (if paren then pexpect KRightParen c5 else ok c5) in
       ok (SFromUse p imports file, c6)
   end.
 
+(* the first variant (in source order) whose name occurred before *)
+Fixpoint first_dup (seen : list name) (l : list (name * ty * nat)) : option nat :=
+  match l with
+  | [] => None
+  | (v, _, pos) :: l' => if existsb (name_eqb v) seen then Some pos else first_dup (v :: seen) l'
+  end.
+
 Definition stmt_enum (nm : name) (c : ctx) : prog (stmt * ctx) :=
-  if negb (is_capitalized nm) then err
+  if negb (is_capitalized nm) then praise c
   else
     let c1 := skip 3 c in
     let '(c2, old) := push_nl false c1 in
     let* '(vars, c3) := Ret (paren_vars c2) in
-    let* '(items, c4) := call_NTs ((QEnumItems [] c3)) in
-    if has_dup items then err
-    else ok (SEnum nm vars items, pop_nl old c4).
+    let* '(items, c4) := call_Enum ((QEnumItems [] c3)) in
+    match first_dup [] items with
+    | Some pos => Ret (Err c4 [pos])
+    | None => ok (SEnum nm vars (map (fun x => (fst (fst x), snd (fst x))) items), pop_nl old c4)
+    end.
 
 Definition stmt_blob (nm : name) (c : ctx) : prog (stmt * ctx) :=
-  if negb (is_capitalized nm) then err
+  if negb (is_capitalized nm) then praise c
   else
     let c1 := skip 2 c in
     let external := is_k KExternBlob c1 in
@@ -975,22 +1043,22 @@ Definition stmt_blob (nm : name) (c : ctx) : prog (stmt * ctx) :=
     ok (SBlob nm vars fields external, c7).
 
 Definition stmt_def_implied (nm : name) (c : ctx) : prog (stmt * ctx) :=
-  if name_eqb nm self_name then err
+  if name_eqb nm self_name then praise c
   else
     let c1 := skip 1 c in
     let kind := if is_k KColonColon c1 then VConst else VMutable in
     let c2 := skip 1 c1 in
-    if is_k KExternal c2 then err
+    if is_k KExternal c2 then praise c2
     else
       let* '(v, c3) := expression c2 in
       ok (SDef nm kind TyImplied v, c3).
 
 Definition stmt_def_typed (nm : name) (c : ctx) : prog (stmt * ctx) :=
-  if name_eqb nm self_name then err
+  if name_eqb nm self_name then praise c
   else
     let c1 := skip 2 c in
     let* '(t, c2) := parse_type c1 in
-    let* kind := (if is_k KColon c2 then ok VConst else if is_k KEqual c2 then ok VMutable else err) in
+    let* kind := (if is_k KColon c2 then ok VConst else if is_k KEqual c2 then ok VMutable else praise c2) in
     let c3 := skip 1 c2 in
     if is_k KExternal c3 then ok (SExtDef nm kind t, skip 1 c3)
     else
@@ -1007,7 +1075,7 @@ Definition stmt_assignment (c : ctx) : prog (stmt * ctx) :=
   | Some op =>
       let* '(v, c2) := expression (skip 1 c1) in
       ok (SAssign op target v, c2)
-  | None => err
+  | None => praise c1
   end.
 
 (* probe with `assignable`; only if it succeeds and an assignment operator follows is the statement
@@ -1019,14 +1087,14 @@ Definition stmt_assign_or_expr (c : ctx) : prog (stmt * ctx) :=
           | Some _ => stmt_assignment c
           | None => stmt_expr c
           end)
-       (stmt_expr c).
+       (fun _ _ => stmt_expr c).
 
 Definition step_stmt (c0 : ctx) : prog out :=
   let '(c, old) := push_nl false c0 in
   let* '(s, c1) :=
     match look3 c with
-    | (TK KEnd, _, _) => err
-    | (TK KElse, _, _) => err
+    | (TK KEnd, _, _) => praise c
+    | (TK KElse, _, _) => praise c
     | (TK KNewline, _, _) => ok (SEmpty, c)
     | (TK KDo, _, _) => let* '(ss, c1) := block c in ok (SBlock ss, c1)
     | (TK KUse, _, _) => stmt_use c
@@ -1036,12 +1104,15 @@ Definition step_stmt (c0 : ctx) : prog out :=
     | (TK KUnreachable, _, _) => ok (SUnreachable, skip 1 c)
     | (TK KRet, _, _) =>
         let c1 := skip 1 c in
-        ptry (expression c1) (fun '(v, c2) => ok (SRet (Some v), c2)) (ok (SRet None, c1))
+        ptry (expression c1) (fun '(v, c2) => ok (SRet (Some v), c2)) (fun _ _ => ok (SRet None, c1))
     | (TK KLoop, _, _) =>
         let c1 := skip 1 c in
         let* '(cond, c2) := (if is_k KDo c1 then ok (EBool true, c1) else expression c1) in
         let* '(body, c3) := statement c2 in
-        ok (SLoop cond body, prev c3)
+        match prev c3 with
+        | Some cp => ok (SLoop cond body, cp)
+        | None => panic
+        end
     | (TIdent nm, TK KColonColon, TK KEnum) => stmt_enum nm c
     | (TIdent nm, TK KColonColon, TK KBlob) => stmt_blob nm c
     | (TIdent nm, TK KColonColon, TK KExternBlob) => stmt_blob nm c
@@ -1053,6 +1124,39 @@ Definition step_stmt (c0 : ctx) : prog out :=
   let* c2 :=
     (if is_k KEnd c1 || is_k KElse c1 || is_k KElif c1 then ok c1 else pexpect KNewline c1) in
   ok (RS s (pop_nl old c2)).
+
+(* outer_statement: a statement of one of the kinds allowed at the top level; otherwise an error that
+   carries the span of the statement's first token *)
+Definition is_outer (s : stmt) : bool :=
+  match s with
+  | SBlob _ _ _ _ | SEnum _ _ _ | SDef _ _ _ _ | SExtDef _ _ _ | SUse _ _ _ | SFromUse _ _ _ | SEmpty => true
+  | _ => false
+  end.
+
+Definition outer_statement (c : ctx) : prog (stmt * ctx) :=
+  let* '(s, c1) := statement c in
+  if is_outer s then ok (s, c1)
+  else Ret (Err (skip 1 c1) [consumed (fst (push_nl false c))]).
+
+(* is there a comment among the last n consumed tokens? (comments_since_last_statement at the end) *)
+Definition comment_in (n : nat) (c : ctx) : bool :=
+  existsb (fun t => match t with TComment => true | _ => false end) (firstn n (pre c)).
+
+(* module(): newlines between statements are skipped; a failed statement is recorded and the loop resumes at
+   the next newline; comments after the last statement become a trailing EmptyStatement *)
+Definition step_module (acc : list stmt) (errs : list nat) (last : nat) (c : ctx) : prog out :=
+  match token c with
+  | TEOF =>
+      match errs with
+      | [] => ok (RSs (if comment_in (length (pre c) - last) c then acc ++ [SEmpty] else acc) c)
+      | _ => Ret (Err c errs)
+      end
+  | TK KNewline => call (QModule acc errs last (skip 1 c))
+  | _ =>
+      ptry (outer_statement c)
+           (fun '(s, c1) => call (QModule (acc ++ [s]) errs (consumed c1) c1))
+           (fun c' es => call (QModule acc (errs ++ es) last (skip_until KNewline c')))
+  end.
 
 Definition step (q : req) : prog out :=
   match q with
@@ -1070,10 +1174,11 @@ Definition step (q : req) : prog out :=
   | QSepTypes old c => step_sep_types old c
   | QFnTyParams acc c => step_fnty_params acc c
   | QTyTuple b acc c => step_ty_tuple b acc c
-  | QStmts acc c => step_stmts acc c
+  | QStmts acc errs c => step_stmts acc errs c
   | QStmt c => step_stmt c
   | QEnumItems acc c => step_enum_items acc c
   | QBlobFields acc c => step_blob_fields acc c
+  | QModule acc errs last c => step_module acc errs last c
   end.
 
 End WithTable.
@@ -1088,11 +1193,13 @@ Fixpoint go (T : ptab) (f : nat) (q : req) : res out :=
 (* entry points (the four public functions the harness calls) *)
 
 Definition as_E (o : res out) : res (expr * ctx) :=
-  match o with Ok (RE e c) => Ok (e, c) | Ok _ => Err | Err => Err | Fuel => Fuel end.
+  match o with Ok (RE e c) => Ok (e, c) | Ok _ => Panic | Err c es => Err c es | Fuel => Fuel | Panic => Panic end.
 Definition as_S (o : res out) : res (stmt * ctx) :=
-  match o with Ok (RS s c) => Ok (s, c) | Ok _ => Err | Err => Err | Fuel => Fuel end.
+  match o with Ok (RS s c) => Ok (s, c) | Ok _ => Panic | Err c es => Err c es | Fuel => Fuel | Panic => Panic end.
 Definition as_T (o : res out) : res (ty * ctx) :=
-  match o with Ok (RT t c) => Ok (t, c) | Ok _ => Err | Err => Err | Fuel => Fuel end.
+  match o with Ok (RT t c) => Ok (t, c) | Ok _ => Panic | Err c es => Err c es | Fuel => Fuel | Panic => Panic end.
+Definition as_Ss (o : res out) : res (list stmt * ctx) :=
+  match o with Ok (RSs ss c) => Ok (ss, c) | Ok _ => Panic | Err c es => Err c es | Fuel => Fuel | Panic => Panic end.
 
 Definition init (ts : list tok) : ctx := mkctx [] ts 0 false.
 
@@ -1102,18 +1209,16 @@ Definition parse_expression (T : ptab) (f : nat) (ts : list tok) : res (expr * c
 Definition parse_statement (T : ptab) (f : nat) (ts : list tok) : res (stmt * ctx) :=
   as_S (go T f (QStmt (init ts))).
 
-Definition is_outer (s : stmt) : bool :=
-  match s with
-  | SBlob _ _ _ _ | SEnum _ _ _ | SDef _ _ _ _ | SExtDef _ _ _ | SUse _ _ _ | SFromUse _ _ _ | SEmpty => true
-  | _ => false
-  end.
-
+(* one more level of fuel: outer_statement is a wrapper around the statement request *)
 Definition parse_outer_statement (T : ptab) (f : nat) (ts : list tok) : res (stmt * ctx) :=
-  let+ '(s, c) := parse_statement T f ts in
-  if is_outer s then Ok (s, c) else Err.
+  run (go T f) (outer_statement (init ts)).
 
 Definition parse_type_top (T : ptab) (f : nat) (ts : list tok) : res (ty * ctx) :=
   as_T (go T f (QType (init ts))).
+
+(* the whole file: sylt_parser's module() *)
+Definition parse_program (T : ptab) (f : nat) (ts : list tok) : res (list stmt * ctx) :=
+  as_Ss (go T f (QModule [] [] 0 (init ts))).
 
 (* recursion depth is bounded by a small multiple of the number of tokens *)
 Definition default_fuel (ts : list tok) : nat := 12 * length ts + 64.
